@@ -211,3 +211,161 @@ void h_accept (void)
 	if (!r && g_native == 0) CANARY ("closed");
 	if (!r && !g_xfer_ok && g_accepts > 0) CANARY ("accept error");
 }
+
+/* ================================================================== C10: modes, lifecycle, descriptor flags */
+#define BOOLV(r) ((r) == TRUE || (r) == FALSE)
+/* frame helper for bit-field neighbours */
+#define SAME_FLAGS_EXCEPT_CONNECTED(s) ((s)->blocking == __CPROVER_old ((s)->blocking) && (s)->closed == __CPROVER_old ((s)->closed) && \
+	(s)->listening == __CPROVER_old ((s)->listening) && (s)->keepalive == __CPROVER_old ((s)->keepalive))
+
+PSocket *
+p_socket_new (PSocketFamily family, PSocketType type, PSocketProtocol protocol, PError **error)
+__CPROVER_requires (error == NULL && SOCK_INIT && g_err_calls == 0 && !g_fd_live)
+__CPROVER_assigns (SOCK_GHOSTS, ERR_GHOSTS, ALLOC_GHOSTS)
+/* success: one descriptor, open, close-on-exec, kernel non-blocking; getters report the defaults */
+__CPROVER_ensures (__CPROVER_return_value != NULL ==> (__CPROVER_is_fresh (__CPROVER_return_value, sizeof (PSocket)) &&
+	g_socket_calls == 1 && g_new_fd_live && __CPROVER_return_value->fd == g_new_fd && g_new_fd_cloexec && g_new_fd_nonblock && g_closes == 0))
+__CPROVER_ensures (__CPROVER_return_value != NULL ==> (__CPROVER_return_value->blocking && __CPROVER_return_value->timeout == 0 &&
+	__CPROVER_return_value->listen_backlog == P_SOCKET_DEFAULT_BACKLOG && !__CPROVER_return_value->closed && !__CPROVER_return_value->connected &&
+	!__CPROVER_return_value->listening && !__CPROVER_return_value->keepalive &&
+	__CPROVER_return_value->family == family && __CPROVER_return_value->type == type && __CPROVER_return_value->protocol == protocol))
+/* failure: no descriptor stays open, error reported */
+__CPROVER_ensures (__CPROVER_return_value == NULL ==> ((!g_new_fd_live || g_close_failed) && g_err_calls >= 1 && g_allocs - __CPROVER_old (g_allocs) == g_frees - __CPROVER_old (g_frees)))
+__CPROVER_ensures (g_socket_calls <= 1 && g_closes <= 1)
+;
+
+pboolean
+p_socket_close (PSocket *socket, PError **error)
+__CPROVER_requires (WF_SOCK (socket) && error == NULL && SOCK_INIT && g_err_calls == 0)
+__CPROVER_assigns (SOCK_GHOSTS, ERR_GHOSTS, socket->fd, socket->connected)
+__CPROVER_ensures (BOOLV (__CPROVER_return_value))
+/* idempotent: closing a closed socket succeeds without touching any descriptor */
+__CPROVER_ensures (__CPROVER_old (socket->closed) ==> (__CPROVER_return_value == TRUE && g_closes == 0 && g_native == 0 && socket->closed && socket->fd == -1))
+/* open socket: the descriptor is closed exactly once; afterwards closed, not connected, not listening, fd forgotten */
+__CPROVER_ensures (!__CPROVER_old (socket->closed) ==> g_closes == 1)
+__CPROVER_ensures ((!__CPROVER_old (socket->closed) && __CPROVER_return_value == TRUE) ==> (!g_fd_live && socket->closed && !socket->connected && !socket->listening && socket->fd == -1))
+__CPROVER_ensures ((!__CPROVER_old (socket->closed) && __CPROVER_return_value == FALSE) ==> (g_close_failed && g_fd_live && !socket->closed && socket->fd == g_sock_fd && g_err_calls == 1))
+__CPROVER_ensures (socket->blocking == __CPROVER_old (socket->blocking) && socket->keepalive == __CPROVER_old (socket->keepalive))
+;
+
+/* every operation that reports errors fails on a closed socket with NOT_AVAILABLE and no native call */
+pboolean
+p_socket_bind (const PSocket *socket, PSocketAddress *address, pboolean allow_reuse, PError **error)
+__CPROVER_requires (WF_SOCK (socket) && error == NULL && SOCK_INIT && g_err_calls == 0)
+__CPROVER_requires (__CPROVER_is_fresh (address, sizeof (PSocketAddress)) && (address->family == P_SOCKET_FAMILY_INET || address->family == P_SOCKET_FAMILY_INET6))
+__CPROVER_assigns (SOCK_GHOSTS, ERR_GHOSTS)
+__CPROVER_ensures (BOOLV (__CPROVER_return_value))
+__CPROVER_ensures (socket->closed ==> (__CPROVER_return_value == FALSE && CLOSED_FAILS))
+__CPROVER_ensures (!socket->closed ==> (g_binds == 1 && g_addr_len == (address->family == P_SOCKET_FAMILY_INET ? sizeof (struct sockaddr_in) : sizeof (struct sockaddr_in6)) &&
+	g_addr_family == (address->family == P_SOCKET_FAMILY_INET ? AF_INET : AF_INET6)))
+__CPROVER_ensures ((!socket->closed && __CPROVER_return_value == FALSE) ==> g_err_calls == 1)
+__CPROVER_ensures (g_closes == 0)
+;
+pboolean
+p_socket_listen (PSocket *socket, PError **error)
+__CPROVER_requires (WF_SOCK (socket) && error == NULL && SOCK_INIT && g_err_calls == 0)
+__CPROVER_assigns (SOCK_GHOSTS, ERR_GHOSTS, socket->listening)
+__CPROVER_ensures (BOOLV (__CPROVER_return_value))
+__CPROVER_ensures (socket->closed ==> (__CPROVER_return_value == FALSE && CLOSED_FAILS))
+__CPROVER_ensures (!socket->closed ==> (g_listens == 1 && g_listen_backlog_arg == socket->listen_backlog && g_native == 1))
+__CPROVER_ensures (__CPROVER_return_value == TRUE ==> socket->listening)
+__CPROVER_ensures (__CPROVER_return_value == FALSE ==> (socket->listening == __CPROVER_old (socket->listening) && g_err_calls == 1))
+__CPROVER_ensures (socket->blocking == __CPROVER_old (socket->blocking) && socket->closed == __CPROVER_old (socket->closed) &&
+	socket->connected == __CPROVER_old (socket->connected) && socket->keepalive == __CPROVER_old (socket->keepalive))
+;
+pboolean
+p_socket_shutdown (PSocket *socket, pboolean shutdown_read, pboolean shutdown_write, PError **error)
+__CPROVER_requires (WF_SOCK (socket) && error == NULL && SOCK_INIT && g_err_calls == 0 && BOOLV (shutdown_read) && BOOLV (shutdown_write))
+__CPROVER_assigns (SOCK_GHOSTS, ERR_GHOSTS, socket->connected)
+__CPROVER_ensures (BOOLV (__CPROVER_return_value))
+__CPROVER_ensures (socket->closed ==> (__CPROVER_return_value == FALSE && CLOSED_FAILS))
+__CPROVER_ensures ((!socket->closed && !shutdown_read && !shutdown_write) ==> (__CPROVER_return_value == TRUE && g_native == 0))
+__CPROVER_ensures ((!socket->closed && (shutdown_read || shutdown_write)) ==> (g_shutdowns == 1 && g_native == 1 &&
+	g_shutdown_how == (shutdown_read && shutdown_write ? SHUT_RDWR : shutdown_read ? SHUT_RD : SHUT_WR)))
+/* connected getter: cleared exactly by a successful shutdown of both directions */
+__CPROVER_ensures (socket->connected == ((__CPROVER_return_value == TRUE && shutdown_read && shutdown_write && !socket->closed) ? 0 : __CPROVER_old (socket->connected)))
+__CPROVER_ensures (SAME_FLAGS_EXCEPT_CONNECTED (socket) && g_closes == 0)
+;
+pboolean
+p_socket_set_buffer_size (const PSocket *socket, PSocketDirection dir, psize size, PError **error)
+__CPROVER_requires (WF_SOCK (socket) && error == NULL && SOCK_INIT && g_err_calls == 0)
+__CPROVER_assigns (SOCK_GHOSTS, ERR_GHOSTS)
+__CPROVER_ensures (socket->closed ==> (__CPROVER_return_value == FALSE && CLOSED_FAILS))
+__CPROVER_ensures (!socket->closed ==> (g_native == 1 && g_setsockopt_name == (dir == P_SOCKET_DIRECTION_RCV ? SO_RCVBUF : SO_SNDBUF) &&
+	((__CPROVER_return_value == TRUE) == !!g_setsockopt_ok)))
+;
+
+/* setters / getters always reflect the calls made so far */
+void
+p_socket_set_timeout (PSocket *socket, pint timeout)
+__CPROVER_requires (__CPROVER_is_fresh (socket, sizeof (PSocket)))
+__CPROVER_assigns (socket->timeout)
+__CPROVER_ensures (socket->timeout == (timeout < 0 ? 0 : timeout))
+;
+void
+p_socket_set_blocking (PSocket *socket, pboolean blocking)
+__CPROVER_requires (__CPROVER_is_fresh (socket, sizeof (PSocket)))
+__CPROVER_assigns (socket->blocking)
+__CPROVER_ensures (socket->blocking == (blocking != 0))
+__CPROVER_ensures (socket->closed == __CPROVER_old (socket->closed) && socket->connected == __CPROVER_old (socket->connected) &&
+	socket->listening == __CPROVER_old (socket->listening) && socket->keepalive == __CPROVER_old (socket->keepalive))
+;
+void
+p_socket_set_listen_backlog (PSocket *socket, pint backlog)
+__CPROVER_requires (__CPROVER_is_fresh (socket, sizeof (PSocket)))
+__CPROVER_assigns (socket->listen_backlog)
+__CPROVER_ensures (socket->listen_backlog == (socket->listening ? __CPROVER_old (socket->listen_backlog) : backlog))
+;
+void
+p_socket_set_keepalive (PSocket *socket, pboolean keepalive)
+__CPROVER_requires (WF_SOCK (socket) && !socket->closed && SOCK_INIT)
+__CPROVER_assigns (SOCK_GHOSTS, socket->keepalive)
+/* the getter changes only when the kernel accepted the option */
+__CPROVER_ensures (socket->keepalive == ((__CPROVER_old (socket->keepalive) != (keepalive != 0) && g_setsockopt_ok) ? (keepalive != 0) : __CPROVER_old (socket->keepalive)))
+__CPROVER_ensures (__CPROVER_old (socket->keepalive) == (keepalive != 0) ==> g_native == 0)
+__CPROVER_ensures (__CPROVER_old (socket->keepalive) != (keepalive != 0) ==> (g_native == 1 && g_setsockopt_name == SO_KEEPALIVE && g_setsockopt_val == (keepalive != 0)))
+__CPROVER_ensures (socket->closed == __CPROVER_old (socket->closed) && socket->connected == __CPROVER_old (socket->connected) &&
+	socket->listening == __CPROVER_old (socket->listening) && socket->blocking == __CPROVER_old (socket->blocking))
+;
+
+#define H_S(name, decl, call, c1, c2) void h_##name (void) { decl; call; c1; c2; }
+void h_new (void)
+{
+	PSocketFamily f; PSocketType t; PSocketProtocol p; PError **e;
+	PSocket *r = p_socket_new (f, t, p, e);
+	if (r) CANARY ("created");
+	if (!r && g_socket_calls == 0) CANARY ("rejected arguments");
+	if (!r && g_socket_calls == 1 && g_closes == 1) CANARY ("descriptor closed again after a later failure");
+	if (!r && g_socket_calls == 1 && g_closes == 0) CANARY ("socket() failed");
+}
+void h_close (void) { PSocket *s; PError **e; pboolean r = p_socket_close (s, e); if (r && g_closes == 1) CANARY ("closed"); if (r && g_closes == 0) CANARY ("already closed"); if (!r) CANARY ("close failed"); }
+void h_bind (void) { const PSocket *s; PSocketAddress *a; pboolean ar; PError **e; pboolean r = p_socket_bind (s, a, ar, e); if (r) CANARY ("bound"); if (!r && g_native == 0) CANARY ("closed"); if (!r && g_binds == 1) CANARY ("bind failed"); }
+void h_listen (void) { PSocket *s; PError **e; pboolean r = p_socket_listen (s, e); if (r) CANARY ("listening"); if (!r && g_native == 0) CANARY ("closed"); if (!r && g_native == 1) CANARY ("listen failed"); }
+void h_shutdown (void) { PSocket *s; pboolean a, b; PError **e; pboolean r = p_socket_shutdown (s, a, b, e); if (r && g_native == 1) CANARY ("shut down"); if (r && g_native == 0) CANARY ("nothing to do"); if (!r && g_native == 0) CANARY ("closed"); if (!r && g_native == 1) CANARY ("failed"); }
+void h_set_buffer_size (void) { const PSocket *s; PSocketDirection d; psize n; PError **e; pboolean r = p_socket_set_buffer_size (s, d, n, e); if (r) CANARY ("set"); if (!r && g_native == 0) CANARY ("closed"); if (!r && g_native == 1) CANARY ("failed"); }
+void h_set_timeout (void) { PSocket *s; pint t; p_socket_set_timeout (s, t); if (t < 0) CANARY ("negative"); else CANARY ("non-negative"); }
+void h_set_blocking (void) { PSocket *s; pboolean b; p_socket_set_blocking (s, b); CANARY ("end"); }
+void h_set_listen_backlog (void) { PSocket *s; pint b; p_socket_set_listen_backlog (s, b); CANARY ("end"); }
+void h_set_keepalive (void) { PSocket *s; pboolean k; p_socket_set_keepalive (s, k); if (g_native == 1) CANARY ("changed via setsockopt"); else CANARY ("no change"); }
+
+/* getters + NULL handling + free: a small history lemma over the real code */
+void h_getters_and_free (void)
+{
+	PSocket *s = malloc (sizeof (PSocket));
+	__CPROVER_assume (s != NULL);
+	g_sock_fd = s->fd; g_fd_live = !s->closed; g_closes = 0; g_native = 0; g_allocs = 1; g_frees = 0; g_close_failed = 0; g_err_calls = 0; g_new_fd_live = 0;
+	__CPROVER_assume (s->closed ? s->fd == -1 : s->fd >= 0);
+	OBL (p_socket_get_fd (s) == s->fd && p_socket_get_timeout (s) == s->timeout && p_socket_get_listen_backlog (s) == s->listen_backlog, "fd/timeout/backlog getters");
+	OBL ((p_socket_get_blocking (s) != 0) == (s->blocking != 0) && (p_socket_get_keepalive (s) != 0) == (s->keepalive != 0), "blocking/keepalive getters");
+	OBL ((p_socket_is_connected (s) != 0) == (s->connected != 0) && (p_socket_is_closed (s) != 0) == (s->closed != 0), "connected/closed getters");
+	OBL (p_socket_get_family (s) == s->family && p_socket_get_type (s) == s->type && p_socket_get_protocol (s) == s->protocol, "family/type/protocol getters");
+	OBL (p_socket_get_fd (NULL) == -1 && p_socket_is_closed (NULL) == TRUE && p_socket_is_connected (NULL) == FALSE && p_socket_get_timeout (NULL) == -1, "NULL socket getters");
+	OBL (g_native == 0, "getters touch no descriptor");
+	_Bool was_closed = s->closed;
+	p_socket_free (s);
+	/* each descriptor the library holds is closed exactly once, the object released */
+	OBL (g_closes == (was_closed ? 0 : 1) && (!g_fd_live || g_close_failed) && g_frees == 1, "free: descriptor closed once (unless already closed), object released");
+	p_socket_free (NULL);
+	OBL (g_closes == (was_closed ? 0 : 1), "free(NULL) is a no-op");
+	CANARY ("end");
+}
